@@ -219,8 +219,12 @@ impl<'a> RunCtx<'a> {
         let cfg = Config {
             cases: cases.min(u32::MAX as u64) as u32,
             failure_persistence: None,
-            max_shrink_iters: 6000,
-            max_shrink_time: 0,
+            max_shrink_iters: 2000,
+            // shrinking re-instantiates the nested strategies of prop_flat_map generators at every
+            // step (about 30 ms each for the traffic generators): 2000 steps keep the three streams
+            // of C20 well inside the watchdog; a bound that is hit costs minimality only (the
+            // smallest failing case found so far is reported)
+            max_shrink_time: 30_000,
             max_global_rejects: 1 << 30,
             max_local_rejects: 1 << 30,
             verbose: 0,
